@@ -24,11 +24,10 @@
 from __future__ import annotations
 
 from abc import ABC, abstractmethod
-from functools import lru_cache
 from typing import Union
 
 from bip_utils.addr import P2PKHAddr, P2WPKHAddr
-from bip_utils.bip.bip32 import Bip32Base, Bip32KeyIndex, Bip32PrivateKey, Bip32PublicKey, Bip32Slip10Secp256k1
+from bip_utils.bip.bip32 import Bip32Base, Bip32KeyError, Bip32KeyIndex, Bip32PrivateKey, Bip32PublicKey, Bip32Slip10Secp256k1
 from bip_utils.coin_conf import CoinsConf
 
 
@@ -209,7 +208,6 @@ class ElectrumV2Standard(ElectrumV2Base):
         """
         return self.__DeriveKey(change_idx, addr_idx).PublicKey()
 
-    @lru_cache()
     def GetAddress(self,
                    change_idx: Union[int, Bip32KeyIndex],
                    addr_idx: Union[int, Bip32KeyIndex]) -> str:
@@ -231,7 +229,6 @@ class ElectrumV2Standard(ElectrumV2Base):
         return P2PKHAddr.EncodeKey(self.GetPublicKey(change_idx, addr_idx).KeyObject(),
                                    net_ver=CoinsConf.BitcoinMainNet.ParamByKey("p2pkh_net_ver"))
 
-    @lru_cache()
     def __DeriveKey(self,
                     change_idx: Union[int, Bip32KeyIndex],
                     addr_idx: Union[int, Bip32KeyIndex]) -> Bip32Base:
@@ -290,6 +287,9 @@ class ElectrumV2Segwit(ElectrumV2Base):
             Bip32KeyError: If the derivation results in an invalid key or the object is public-only
             Bip32PathError: If the path indexes are not valid
         """
+        # The account key is derived at construction: honour a later conversion of the master object to public-only
+        if self.IsPublicOnly():
+            raise Bip32KeyError("Public-only deterministic keys have no private half")
         return self.__DeriveKey(change_idx, addr_idx).PrivateKey()
 
     def GetPublicKey(self,
@@ -312,7 +312,6 @@ class ElectrumV2Segwit(ElectrumV2Base):
         """
         return self.__DeriveKey(change_idx, addr_idx).PublicKey()
 
-    @lru_cache()
     def GetAddress(self,
                    change_idx: Union[int, Bip32KeyIndex],
                    addr_idx: Union[int, Bip32KeyIndex]) -> str:
@@ -334,7 +333,6 @@ class ElectrumV2Segwit(ElectrumV2Base):
         return P2WPKHAddr.EncodeKey(self.GetPublicKey(change_idx, addr_idx).KeyObject(),
                                     hrp=CoinsConf.BitcoinMainNet.ParamByKey("p2wpkh_hrp"))
 
-    @lru_cache()
     def __DeriveKey(self,
                     change_idx: Union[int, Bip32KeyIndex],
                     addr_idx: Union[int, Bip32KeyIndex]) -> Bip32Base:
